@@ -700,7 +700,15 @@ func (c *Ctx) toTransformRule(r *Report, rule string, rs regSpec, ti int) {
 				continue
 			}
 			onTrue := p.Succs[0] == x
-			if _, fld, ok := fieldLoad(iff.Cond); ok && fld == "AttributePresent" && onTrue {
+			// the field itself, or the very value that is stored into it (tested before the transform is built)
+			isField := func(v ssa.Value, name string) bool {
+				if _, fld, ok := fieldLoad(v); ok && fld == name {
+					return true
+				}
+				st := stores[name]
+				return st != nil && st.Val == v
+			}
+			if isField(iff.Cond, "AttributePresent") && onTrue {
 				present = true
 			}
 			if cond, ok := iff.Cond.(*ssa.BinOp); ok {
@@ -711,7 +719,7 @@ func (c *Ctx) toTransformRule(r *Report, rule string, rs regSpec, ti int) {
 					other = cond.Y
 				}
 				if other != nil {
-					if _, fld, ok := fieldLoad(other); ok && fld == "VariableLengthAttributeValue" {
+					if isField(other, "VariableLengthAttributeValue") {
 						if (cond.Op == token.EQL && onTrue) || (cond.Op == token.NEQ && !onTrue) {
 							varnil = true
 						}
